@@ -41,7 +41,7 @@ OBS = 40          # ranges up to this length are observed to their end (+2 itera
 BATCH = 32
 N_COMPTIME = 8
 
-EXCLUDE = {"range.overflow_wrap"}
+EXCLUDE = set()  # {"range.overflow_wrap"} until the defect was fixed in /repo (186c8d9)
 if os.environ.get("C18_EXCLUDE") is not None:
     _e = os.environ["C18_EXCLUDE"].strip()
     EXCLUDE = set() if _e in ("", "none") else {x.strip() for x in _e.split(",")}
